@@ -537,7 +537,9 @@ def run(case, ctx):
                 f3 = json.loads(t3)['fields']
             except Exception:
                 f3 = None
-            if rc != 0 or f3 != want:
+            if rc < 0:
+                out.label('subprocess-killed-by-signal-at-exit')
+            if rc > 0 or f3 != want:
                 out.violate('subprocess-agrees', 'discover',
                             'subprocess: exit %d, fields %r vs %r'
                             % (rc, f3, want))
@@ -634,7 +636,9 @@ def run(case, ctx):
         check_marks(out, so, v, 'verify')
         if use_sub:
             rc, so2, se2 = run_sub(argv, d, stdin_text)
-            if rc != 0 or so2 != want:
+            if rc < 0:
+                out.label('subprocess-killed-by-signal-at-exit')
+            if rc > 0 or so2 != want:
                 out.violate('subprocess-agrees', 'verify',
                             'subprocess exit %d; output equal: %s; stderr %r'
                             % (rc, so2 == want, se2[-200:]))
@@ -797,7 +801,9 @@ def run(case, ctx):
         same = (os.path.exists(sub_out) == e1)
         if same and e1 and case['outfmt'] == 'csv':
             same = open(sub_out, 'rb').read() == open(cli_out, 'rb').read()
-        if rc != 0 or not same or so2 != so:
+        if rc < 0:
+            out.label('subprocess-killed-by-signal-at-exit')
+        if rc > 0 or not same or so2 != so:
             out.violate('subprocess-agrees', 'detect',
                         'subprocess exit %d, file agrees %s, stdout agrees '
                         '%s; stderr %r' % (rc, same, so2 == so, se2[-200:]))
